@@ -1,8 +1,10 @@
 package main
 
 import (
+	"fmt"
 	"go/ast"
 	"go/token"
+	"sort"
 	"strings"
 
 	"promverif/eng"
@@ -108,6 +110,34 @@ func runC34(c *eng.Ctx) {
 		is := n.(*ast.IfStmt)
 		return is.Else == nil && nodeText(is.Body) == "{ heap.Push(&group.heap, &s) }"
 	}, 2)
+	// the range evaluation skips the whole aggregation only when the ratio is zero at every step (max and min both zero)
+	ra := c.Fn("promql:evaluator.rangeEvalAgg")
+	nEarly := 0
+	for _, sw := range ra.EnumSwitches("promql/parser:ItemType") {
+		cl := sw.Clauses["LIMIT_RATIO"]
+		if cl == nil || len(cl.List) != 1 {
+			continue // arms shared with topk/bottomk/limitk do not decide on the ratio
+		}
+		for _, st := range cl.Body {
+			ast.Inspect(st, func(x ast.Node) bool {
+				rs, ok := x.(*ast.ReturnStmt)
+				if !ok {
+					return true
+				}
+				nEarly++
+				conds := ra.CondsOf(rs)
+				inner := ""
+				if len(conds) > 0 {
+					inner = conds[len(conds)-1]
+				}
+				parts := strings.Split(strings.TrimSuffix(inner, "=T"), " && ")
+				sort.Strings(parts)
+				c.Check("R3", ra.Where(), "an early return of the limit_ratio range evaluation requires the ratio to be zero at every step", strings.HasSuffix(inner, "=T") && strings.Join(parts, " && ") == "params.Max() == 0 && params.Min() == 0", p.Pos(rs.Pos()), inner)
+				return true
+			})
+		}
+	}
+	c.Check("R3", ra.Where(), "the limit_ratio arm of the range evaluation has one early return", nEarly == 1, p.Pos(ra.Body.Pos()), fmt.Sprintf("%d", nEarly))
 	clamp := map[string]string{}
 	ast.Inspect(ag.Body, func(x ast.Node) bool {
 		sw, ok := x.(*ast.SwitchStmt)
